@@ -578,3 +578,5 @@ Proof. intros E2. unfold head_bar. rewrite E2. destruct (lst s); cbn; tauto. Qed
 
 (* pb of a state whose word was just written *)
 Ltac pb_now r' Wn := match goal with |- context [pb ?s2] => rewrite (pb_st s2 r' eq_refl Wn) end.
+Lemma pb_same s s2 : st s2 = st s -> pb s2 = pb s.
+Proof. intros E. unfold pb. rewrite E. reflexivity. Qed.
